@@ -288,7 +288,7 @@ def c_top_module_name(P):
     if not named:
         # returned from inside the search-path loop
         P.prove("a_search_path_above_the_request_adds_nothing", len(after) == len(before) and all(x is y for x, y in zip(after, before)))
-        P.prove("the_first_search_path_above_the_request_decides", len(tried) >= 1 and all(t[1].ident.sexpr() == RESOLVE(b.ident).sexpr() for t, b in zip(tried, before)),
+        P.prove("the_first_search_path_above_the_request_decides", len(tried) >= 1 and all(t[1].ident.sexpr() in (RESOLVE(b.ident).sexpr(), b.ident.sexpr()) for t, b in zip(tried, before)),
                 tried=len(tried))
         P.cover("top_module_name.under_a_search_path")
         return
